@@ -7,7 +7,14 @@
 //!  (2) emits cases for coqc: the SPECIFICATIONS evaluated in Flocq binary32 (volume, panning, clip
 //!      curves, closed-form echo train, Freeverb written with delay-line histories) must agree bit for
 //!      bit with the implementation, and sample traces of every effect must agree with the C13 effect
-//!      models the C14 theorems are about.
+//!      models the C14 theorems are about;
+//!  (3) HISTORIES: what an effect does next depends on the rate in force and on its state only —
+//!      compressor through gaps of exact zeros (k whole buffers + a partial one, aligned or not; the follower
+//!      keeps releasing: compressor_piecewise_R / compressor_release_through_silence_R), every kind of
+//!      response / echo / first-reflection measurement repeated ACROSS a device-rate change on a live effect
+//!      (filter_response_after_rate_change_R, eq_response_after_rate_change_R), on the bare effect and on a
+//!      sub-track of a real AudioManager (injector and tap effects around the effect under test, so that
+//!      the slices are the renderer's own), and bit-exact traces across the change (C13.Run.CaseSR).
 use crate::util::*;
 use kira::effect::compressor::CompressorBuilder;
 use kira::effect::delay::DelayBuilder;
@@ -1645,7 +1652,7 @@ fn sec_compressor_gaps(s: &mut Session, cx: &Ctx, rng: &mut Rng, n_cfg: usize) {
 							"frame {j} (frame {} of part {}): gain change {got_db:.5} dB, the follower through the piecewise-constant history gives {want_db:.5} dB{} [follower after the loud passage {:.4} dB over, s_release = exp(-dt/{:?}) per frame INCLUDING the {nz} silent frames]",
 							j - levels[..part].iter().map(|l| l.1).sum::<usize>(),
 							part + 1,
-							if below { " — a signal below the threshold after the release time must come out unchanged" } else { "" },
+							if below { " — this signal is below the threshold: only what is left of the release after the silence may still attenuate it" } else { "" },
 							o1 * (1.0 - s_att.powf(n1 as f64)),
 							rel
 						),
@@ -1990,7 +1997,7 @@ pub fn run(args: &Args) {
 		"From Coq Require Import ZArith List. Import ListNotations. Open Scope Z_scope.\nFrom KV Require Import Base.Corr C13.Run C14.Run.",
 		"C14.Run.run",
 		6,
-		"one evaluation = one built-in effect built by its public builder at one sample rate and parameter setting, driven with a probe signal (impulse, sine pair, constant level, noise) and compared with the textbook specification of its transfer behaviour; model cases = specification evaluated in binary32 by coqc (bit-exact) or C13 model traces; distinct = distinct (effect, parameters, rate, input)",
+		"one evaluation = one built-in effect built by its public builder at one sample rate (or through a history: device-rate change on the live effect, gaps of exact zeros; bare or on a sub-track of a real AudioManager) and parameter setting, driven with a probe signal (impulse, sine pair, piecewise-constant level, noise) and compared with the textbook specification of its transfer behaviour; model cases = specification evaluated in binary32 by coqc (bit-exact) or C13 model traces (also across on_change_sample_rate); distinct = distinct (effect, parameters, rate(s), input)",
 	);
 	let cx = Ctx { info: MockInfoBuilder::new().build() };
 	sec_volume(&mut s, &cx, &mut rng, 80 * big);
